@@ -16,6 +16,14 @@ partial def loopFsm (h : IO.FS.Stream) (out : IO.FS.Stream) (s : FsmSt) : IO Uni
   out.putStrLn o
   loopFsm h out s'
 
+partial def loopFsmR (h : IO.FS.Stream) (out : IO.FS.Stream) (s : FsmSt) : IO Unit := do
+  let line ← h.getLine
+  if line.isEmpty then return ()
+  let toks := (line.trimAscii.toString.splitOn " ").filter (· != "")
+  let (s', o) := fsmReapply s toks
+  out.putStrLn o
+  loopFsmR h out s'
+
 partial def loopSsz (h : IO.FS.Stream) (out : IO.FS.Stream) (s : SszSt) : IO Unit := do
   let line ← h.getLine
   if line.isEmpty then return ()
@@ -67,6 +75,7 @@ def main (args : List String) : IO UInt32 := do
   let stdout ← IO.getStdout
   match args with
   | ["fsm"] => loopFsm stdin stdout {}; pure 0
+  | ["fsm-reapply"] => loopFsmR stdin stdout {}; pure 0
   | ["node"] => loopNode stdin stdout { self := "" }; pure 0
   | ["reinit"] => loopReinit stdin stdout; pure 0
   | ["air"] => loopAir stdin stdout Dc4bcVerif.Model.Air.fresh; pure 0
